@@ -242,4 +242,15 @@ PROPS = {
             {"name": "c07.node", "pkg": ROUTING, "test": "TestVerifC07Node", "shards_t": 16, "shards_q": 4, "crash_is_violation": True},
         ],
     },
+    "C18": {
+        "level": "exploration",
+        "technique": "stateful rapid property test on the node simulator with a copy-budget ledger model fed by the peers' observations; forced concurrent failure reports through a schedule hook",
+        "level_text": "Histories of submissions, receptions with k copies, peer churn, failing and succeeding transmissions (also to the directly connected destination) and retry ticks are played for L = 1..8 and up to 6 peers; the ledger is computed only from bytes and outcomes seen by the scripted peers, never from the algorithm's own map.",
+        "level_note": "spray metadata lives in memory, so restarts are not part of these histories; the closing phase (vanilla) connects all peers to show that no copy was lost",
+        "assumptions": ["bundles originated at this node have budget L; received ones one copy (vanilla) or the announced count (binary)"],
+        "units": [
+            {"name": "c18.histories", "pkg": ROUTING, "test": "TestVerifC18Histories", "shards_t": 16, "shards_q": 6, "crash_is_violation": True},
+            {"name": "c18.directed", "pkg": ROUTING, "test": "TestVerifC18Directed", "shards_t": 4, "shards_q": 4, "crash_is_violation": True},
+        ],
+    },
 }
